@@ -18,7 +18,7 @@ From Coq Require Import ZArith List Bool.
 Import ListNotations.
 Require Import MV.Lib.Base MV.C16.Gen MV.C16.Model MV.C16.Checkers.
 Require Import MV.C16.Proofs_Base MV.C16.Proofs_UF MV.C16.Proofs_Struct MV.C16.Proofs_Rebuild.
-Require Import MV.C16.Proofs_Prune MV.C16.Proofs_Cotree MV.C16.Proofs_Top MV.C16.Proofs_Examples.
+Require Import MV.C16.Proofs_Prune MV.C16.Proofs_Cotree MV.C16.Proofs_Top MV.C16.Proofs_Examples MV.C16.Proofs_RepIndep.
 Open Scope Z_scope.
 
 (* 1. FULL, for ANY face list, edge table and cut set: the rebuilt mesh has the input faces in the same order with
@@ -50,6 +50,19 @@ Theorem C16_rebuild_glued_meaning : forall faces edges cut x y, glued faces edge
   0 <= x < ncorners faces /\ 0 <= y < ncorners faces /\ cvert faces x = cvert faces y.
 Proof. exact glued_same_vertex. Qed.
 Print Assumptions C16_rebuild_glued_meaning.
+
+(* 1c. FULL: the rebuild sees the union-find through `find` only, and depends on it only through the partition of
+       the corners: two class-representative functions with the same classes on the corners (whose representatives
+       are corners of the same input vertex) give the same output mesh, vertex table and ref_vertex.  The model's
+       `rep_of_pairs` induces the equivalence closure of the united pairs (rep_spec, used by 1); C20 proves the
+       same of mouette's UnionFind.find. *)
+Theorem C16_rebuild_any_union_find : forall (faces : list face) (r1 r2 : uf),
+  let N := ncorners faces in
+  (forall c c', 0 <= c < N -> 0 <= c' < N -> (r1 c = r1 c' <-> r2 c = r2 c')) ->
+  (forall c, 0 <= c < N -> cvert faces (r1 c) = cvert faces (r2 c)) ->
+  rebuild_with r1 faces = rebuild_with r2 faces.
+Proof. exact rebuild_rep_independent. Qed.
+Print Assumptions C16_rebuild_any_union_find.
 
 (* 2. FULL: _build_cut_edges_tree is the complement of the dual tree. *)
 Theorem C16_cut0_is_complement : forall edges ev e,
